@@ -172,7 +172,8 @@ def _extra_reads(m, scale):
     out["q_ray_native"] = ray_native
     out["q_ray_any"] = lambda: m.ray.intersects_any(O, D)
     out["q_ray_first"] = lambda: m.ray.intersects_first(O, D)
-    out["q_on_surface"] = lambda: dict(zip(("p", "d"), m.nearest.on_surface(P)[:2]))
+    out["q_on_surface_distance"] = lambda: m.nearest.on_surface(P)[1]
+    out["q_on_surface_point"] = lambda: m.nearest.on_surface(P)[0]
     out["q_nearest_vertex"] = lambda: m.nearest.vertex(P)[0]
     out["q_kdtree"] = lambda: m.kdtree.query(P)[0]
     out["q_tri_tree"] = lambda: sorted(m.triangles_tree.intersection(np.r_[P[0] - scale["s"], P[0] + scale["s"]]))
@@ -181,7 +182,11 @@ def _extra_reads(m, scale):
     out["q_vag"] = lambda: sorted(tuple(sorted(map(int, e))) for e in m.vertex_adjacency_graph.edges())
     out["q_hull_volume"] = lambda: float(m.convex_hull.volume)
     out["q_bbox"] = lambda: np.asarray(m.bounding_box.bounds)
-    if m.is_watertight:
+    try:
+        closed = bool(m.is_watertight)
+    except Exception:
+        closed = False
+    if closed:
         out["q_contains"] = lambda: m.contains(P)
         out["q_signed_distance"] = lambda: m.nearest.signed_distance(P)
     return out
@@ -196,6 +201,9 @@ class Raised:
 
 
 def read(m, name, extra):
+    if name in RANDOMIZED:
+        # same retry directions for the mutated mesh, the fresh one and the twins
+        np.random.seed(20261004)
     try:
         if name == "identifier":
             # uncompared, but it takes the cache lock (comparison.py) - a useful pre-read
@@ -250,6 +258,10 @@ def differ(a, b, name, scale):
         # 1e-6 rotation shortcut which may leave normals up to 1e-6 rad off.
         mag = max(1.0, float(np.nanmax(np.abs(b_))) if b_.size else 1.0)
         tol = 1e-9 * mag + 5e-6 * _normal_slack(name) * mag
+        if name == "integral_mean_curvature":
+            # sum over edges of angle * length / 2: an angle between (nearly) parallel normals
+            # carries sqrt(eps) ~ 3e-8 rad of rounding whatever the code does
+            tol += 1e-7 * scale.get("edge_sum", 0.0)
         bad = ~(np.isclose(a_, b_, rtol=1e-9, atol=tol) | both_nan)
         if bad.any():
             return "float values differ: max abs err %.3g (tol %.3g)" % (
@@ -261,6 +273,7 @@ def differ(a, b, name, scale):
 _NORMAL_DERIVED = (
     "face_normals", "vertex_normals", "face_adjacency_angles", "face_adjacency_projections",
     "integral_mean_curvature", "facets_normal", "face_adjacency_radius", "q_signed_distance",
+    "q_on_surface_point",
 )
 
 
@@ -285,6 +298,61 @@ def fresh_of(m):
     if "center_mass" in m._data.data:
         f.center_mass = np.array(m._data.data["center_mass"]).copy()
     return f
+
+
+# query reads whose answers rest on trimesh's ABSOLUTE tolerances (embree advance offset,
+# tol.merge on squared distances in proximity.closest_point, tol.zero in ray/triangle tests):
+# outside unit-ish extents a 1-ulp difference in transported normals flips them (C12 findings),
+# so they are judged in the well-scaled regime only
+SCALE_GATED = ("q_ray_default", "q_ray_any", "q_ray_first", "q_contains", "q_signed_distance",
+               "q_ray_native", "q_on_surface_distance", "q_on_surface_point")
+# reads that fall back to the global numpy RNG (contains_points retries a random direction)
+RANDOMIZED = ("q_contains", "q_signed_distance")
+
+
+def _transport(n, R):
+    """Rotate normals there and back with the library's own code path: realistic rounding."""
+    from trimesh import transformations as tf
+    from trimesh import util
+
+    a = util.unitize(tf.transform_points(n, R, translate=False))
+    return util.unitize(tf.transform_points(a, R.T, translate=False))
+
+
+def perturbed_twin(f, run, style="noise"):
+    """Fresh mesh with the same arrays whose stored normals are off by a few ulp."""
+    try:
+        g = fresh_of(f)
+        rng = np.random.default_rng(12345)
+        if style == "transport":
+            from trimesh import transformations as tf
+
+            R = tf.rotation_matrix(0.8123, [0.31, -0.57, 0.76])
+            fn = np.array(f.face_normals, dtype=np.float64)
+            if fn.shape == np.shape(g.faces) and len(fn):
+                g._cache["face_normals"] = _transport(fn, R)
+            vn = np.array(f.vertex_normals, dtype=np.float64)
+            if vn.shape == np.shape(g.vertices) and len(vn):
+                g._cache["vertex_normals"] = _transport(vn, R)
+            return g
+        fn = np.array(f.face_normals, dtype=np.float64)
+        if fn.shape == np.shape(g.faces) and len(fn):
+            p = fn * (1.0 + 1e-15 * rng.standard_normal(fn.shape)) + 1e-16 * rng.standard_normal(fn.shape)
+            nrm = np.linalg.norm(p, axis=1)
+            ok = nrm > 0
+            p[ok] /= nrm[ok].reshape((-1, 1))
+            g._cache["face_normals"] = p
+        vn = np.array(f.vertex_normals, dtype=np.float64)
+        if vn.shape == np.shape(g.vertices) and len(vn):
+            p = vn * (1.0 + 1e-15 * rng.standard_normal(vn.shape)) + 1e-16 * rng.standard_normal(vn.shape)
+            nrm = np.linalg.norm(p, axis=1)
+            ok = nrm > 0
+            p[ok] /= nrm[ok].reshape((-1, 1))
+            g._cache["vertex_normals"] = p
+        return g
+    except Exception:
+        run.count("perturbed_twin_unavailable")
+        return None
 
 
 # ---------------------------------------------------------------------------
@@ -334,8 +402,12 @@ def mutators(rng):
         muts.append((name, fn))
 
     for tag, M in gx.matrices(rng, dim=3):
-        cls = tag.split(":")[0] + (":" + ":".join(tag.split(":")[1:]) if tag.startswith("near_identity") else "")
-        add("apply_transform:" + cls, (lambda M: lambda m, r: m.apply_transform(M))(M))
+        name = "apply_transform:" + tag
+        k = 1
+        while any(n == name for n, _ in muts):
+            k += 1
+            name = "apply_transform:%s#%d" % (tag, k)
+        add(name, (lambda M: lambda m, r: m.apply_transform(M))(M))
     add("apply_scale:scalar", lambda m, r: m.apply_scale(2.5))
     add("apply_scale:per_axis", lambda m, r: m.apply_scale([1.0, 2.0, 0.5]))
     add("apply_scale:negative", lambda m, r: m.apply_scale(-1.5))
@@ -498,7 +570,11 @@ def scale_of(m):
     if len(b) == 0:
         return {"s": 1.0, "c": np.zeros(3)}
     lo, hi = b.min(axis=0), b.max(axis=0)
-    return {"s": float(max((hi - lo).max(), 1e-6)), "c": (lo + hi) / 2.0}
+    try:
+        edge_sum = float(np.linalg.norm(np.diff(np.asarray(m.vertices)[np.asarray(m.faces)], axis=1), axis=2).sum()) * 1.5
+    except Exception:
+        edge_sum = 0.0
+    return {"s": float(max((hi - lo).max(), 1e-6)), "c": (lo + hi) / 2.0, "edge_sum": edge_sum}
 
 
 class Monitor:
@@ -526,12 +602,36 @@ class Monitor:
         f = fresh_of(m)
         names, extra_m, sc = self.read_names(m)
         extra_f = _extra_reads(f, sc)
+        # calibration twin: a second fresh mesh whose normals carry the rounding a rotation
+        # legitimately leaves behind (a few ulp).  A value on which the two fresh meshes
+        # disagree is ill-conditioned for this input (ties broken by normals, arccos near 0,
+        # marginal ray hits) and says nothing about staleness: it is skipped and counted.
+        twins = [t for t in (perturbed_twin(f, self.run, "noise"), perturbed_twin(f, self.run, "transport")) if t is not None]
+        f2 = twins[0] if twins else None
+        extra_f2 = _extra_reads(f2, sc) if f2 is not None else {}
+        f3 = twins[1] if len(twins) > 1 else None
+        extra_f3 = _extra_reads(f3, sc) if f3 is not None else {}
+        embree_ok = 0.5 <= sc["s"] <= 200.0
         bad = 0
         hits0 = self.probe.hits
         for n in names:
             if n in extra_m and n not in extra_f:
                 continue
+            if n in SCALE_GATED and not embree_ok:
+                run.skip("tolerance-bound query outside the well-scaled regime: %s" % n)
+                continue
             vf = read(f, n, extra_f)
+            if f2 is not None and n not in extra_f2 and n in extra_f:
+                continue
+            if f2 is not None:
+                vf2 = read(f2, n, extra_f2)
+                bad_twin = differ(vf2, vf, n, sc)
+                if not bad_twin and f3 is not None and (n not in extra_f or n in extra_f3):
+                    bad_twin = differ(read(f3, n, extra_f3), vf, n, sc)
+                if bad_twin:
+                    run.skip("ill-conditioned under admissible normal rounding: %s" % n)
+                    run.count("ill_conditioned_reads")
+                    continue
             if isinstance(vf, Raised):
                 run.skip("fresh value raises: %s" % n)
                 continue
@@ -580,7 +680,14 @@ def run_history(mon, run, mesh_tag, base, steps, seed_for_mut):
             m = res
         if len(m.faces) == 0 or len(m.vertices) == 0:
             run.count("emptied_by_mutator")
-        bad = mon.compare(m, hist, mesh_tag, mname)
+        try:
+            bad = mon.compare(m, hist, mesh_tag, mname)
+        except Exception as e:  # unguarded harness path: never a verdict, keep the history
+            run.skip("compare crashed: %s" % type(e).__name__)
+            crashes = run.notes.setdefault("compare_crashes", [])
+            if len(crashes) < 5:
+                crashes.append({"mesh": mesh_tag, "history": hist, "error": "%s: %s" % (type(e).__name__, str(e)[:200])})
+            return
         if len(keys_at_mutation) > 0 or mon.post_hits > 0:
             nontrivial = True
         if bad:
@@ -608,8 +715,8 @@ def workload(run):
 
 
 def _workload(run, mon):
-    meshes = start_meshes(run.rng, run.tier)
-    muts = mutators(run.rng)
+    meshes = start_meshes(np.random.default_rng(run.subseed + 2), run.tier)
+    muts = mutators(np.random.default_rng(run.subseed + 1))
     mut_by_name = dict(muts)
     run.note("values_compared", len(mon.names))
     run.note("mutators", [n for n, _ in muts])
@@ -690,8 +797,9 @@ def _workload(run, mon):
 def replay(run, case):
     mon = Monitor(run)
     try:
-        meshes = dict(start_meshes(np.random.default_rng(run.subseed), "thorough"))
-        muts = dict(mutators(np.random.default_rng(run.subseed)))
+        sub = int(case.get("_subseed", run.subseed))
+        meshes = dict(start_meshes(np.random.default_rng(sub + 2), "thorough"))
+        muts = dict(mutators(np.random.default_rng(sub + 1)))
         names_all, _, _ = mon.read_names(list(meshes.values())[0])
         steps = []
         for h in case["history"]:
